@@ -117,6 +117,17 @@ def gen_hierarchy(src):
             k["default"] = [k["default"][0] if k["default"][0] != "attr_factory" else "attr_default", src.pick(VALS["str"])]
         root["key"] = k["name"]
         root["prepare"].pop(k["name"], None)
+    if shape == "two_parents" and root.get("key") and src.chance(2, 3) and classes[1]["attrs"] and not classes[1].get("user_init"):
+        # the second parent is keyed too, by an attribute of its own: the class under construction answers to the first
+        # parent's key - the second parent's key is an ordinary attribute for it, and may stay missing (which parent's key
+        # would count if only the second one had one is not documented: not generated)
+        k = classes[1]["attrs"][0]
+        k["type"] = "str"
+        k.pop("init", None)
+        if k["default"]:
+            k["default"] = [k["default"][0] if k["default"][0] != "attr_factory" else "attr_default", src.pick(VALS["str"])]
+        classes[1]["key"] = k["name"]
+        classes[1]["prepare"].pop(k["name"], None)
     last = classes[-1]
     if src.chance(1, 4):
         (root if len(classes) > 1 and root["kind"] == "spec" and not root.get("user_init") and src.chance(1, 2) else last)["overflow"] = "extra"
